@@ -4460,6 +4460,7 @@ class ResponseFuture(object):
     _host = None
 
     _warned_timeout = False
+    _reprepared_id = None
 
     def __init__(self, session, message, query, timeout, metrics=None, prepared_statement=None,
                  retry_policy=RetryPolicy(), row_factory=None, load_balancer=None, start_time=None,
@@ -4860,6 +4861,7 @@ class ResponseFuture(object):
                                                      keyspace=prepared_keyspace)
                     # since this might block, run on the executor to avoid hanging
                     # the event loop thread
+                    self._reprepared_id = query_id
                     self.session.submit(self._reprepare, prepare_message, host, connection, pool)
                     return
                 else:
@@ -4924,17 +4926,19 @@ class ResponseFuture(object):
 
         if isinstance(response, ResultMessage):
             if response.kind == RESULT_KIND_PREPARED:
+                # the id the node reported as unknown: the request's own statement, or - for a batch - the member statement that is being re-prepared
+                expected_id = self.prepared_statement.query_id if self.prepared_statement else self._reprepared_id
+                if expected_id is not None and expected_id != response.query_id:
+                    self._set_final_exception(DriverException(
+                        "ID mismatch while trying to reprepare (expected {expected}, got {got}). "
+                        "This prepared statement won't work anymore. "
+                        "This usually happens when you run a 'USE...' "
+                        "query after the statement was prepared.".format(
+                            expected=hexlify(expected_id), got=hexlify(response.query_id)
+                        )
+                    ))
+                    return
                 if self.prepared_statement:
-                    if self.prepared_statement.query_id != response.query_id:
-                        self._set_final_exception(DriverException(
-                            "ID mismatch while trying to reprepare (expected {expected}, got {got}). "
-                            "This prepared statement won't work anymore. "
-                            "This usually happens when you run a 'USE...' "
-                            "query after the statement was prepared.".format(
-                                expected=hexlify(self.prepared_statement.query_id), got=hexlify(response.query_id)
-                            )
-                        ))
-                        return
                     self.prepared_statement.result_metadata = response.column_metadata
                     new_metadata_id = response.result_metadata_id
                     if new_metadata_id is not None:
